@@ -82,6 +82,9 @@ func c10Events() []*c10Event {
 		srcs = append(srcs, fmt.Sprintf("add_key(%s)", k))
 		srcs = append(srcs, fmt.Sprintf("set_tag(%s)", k))
 		srcs = append(srcs, fmt.Sprintf(`set_tag(%s, "v")`, k))
+		srcs = append(srcs, fmt.Sprintf(`set_tag(%s, obj.attr)`, k)) // a value without a string form
+		srcs = append(srcs, fmt.Sprintf(`add_key(%s, obj.attr)`, k))
+		srcs = append(srcs, fmt.Sprintf(`set_tag(%s, a)`, k)) // value read from another key
 		srcs = append(srcs, fmt.Sprintf("drop_key(%s)", k))
 		for _, t := range []string{"bool", "int", "float", "str"} {
 			srcs = append(srcs, fmt.Sprintf(`cast(%s, "%s")`, k, t))
@@ -437,7 +440,7 @@ func init() {
 		ID:    "C10",
 		Level: "model_checking",
 		Rule: "explicit-state search: states = real input.Point values (measurement, time, tags, fields with Go types AND the key index), initial states = 4 points over {a field, t1 tag, message, small-int/float32 fields} covering every supported field type; " +
-			"transitions = 116 one-line scripts run by the real engine on a deep clone (add_key x 5 keys x 7 value kinds, add_key(k), set_tag(k[,v]), drop_key, rename over all ordered key pairs, cast x 4 types, set_measurement(k,true), default_time, uppercase, grok writing typed captures); " +
+			"transitions = 128 one-line scripts run by the real engine on a deep clone (add_key x 5 keys x 7 value kinds, add_key(k), set_tag(k[, literal | attribute expression | other key]), add_key(k, attribute expression), drop_key, rename over all ordered key pairs, cast x 4 types, set_measurement(k,true), default_time, uppercase, grok writing typed captures); " +
 			"breadth-first to depth 3 (thorough 4) with de-duplication on the canonical state; in every state: I1 every output key reads back (Point.Get and a script read) with exactly the stored value and type, I2 no key is tag and field, I3 field types, I4 no read returns a value the output lacks, I5 every output key can be dropped and renamed (one-step look-ahead); plus agreement with the reference point model",
 		Assumptions: []string{"level 1 is sharded across workers, de-duplication is per worker (states reached in several subtrees are checked more than once)", "reference tracking stops after an unspecified cell (rename onto an existing key)"},
 		Run:            c10Run,
